@@ -122,7 +122,7 @@ func verifRepoBytes(n int) []byte {
 // words above.
 func verifRepo(nkw int) string {
 	kw := func() string { return verifRepoKeywords[verif.Choice("repo_keyword", nkw)] }
-	switch verif.Choice("repo_shape", verif.Bound("repo_shapes", 4, 6)) {
+	switch verif.Choice("repo_shape", verif.Bound("repo_shapes", 4, 5)) {
 	case 0:
 		return string(verifRepoBytes(2))
 	case 1:
@@ -167,18 +167,12 @@ func verifTag(nkw, minLen, maxLen int) string {
 const verifHexTail = "3a5c916c92643ff77519ffa742d3ec61b7f591b6b7504599d95a4a41134e"
 
 // verifHex: 64 hex digits; the first (shard directory) and the last are
-// symbolic, in the thorough tier also the second and one in the middle.
+// symbolic.
 func verifHex() string {
 	b := verif.Bytes("hex", 2)
 	verif.Assume(verifHexDigit(b[0]))
 	verif.Assume(verifHexDigit(b[1]))
-	if verif.Bound("symbolic_hex_digits", 2, 4) == 2 {
-		return string(b[:1]) + "f" + verifHexTail[:30] + "0" + verifHexTail[30:] + string(b[1:])
-	}
-	c := verif.Bytes("hex_more", 2)
-	verif.Assume(verifHexDigit(c[0]))
-	verif.Assume(verifHexDigit(c[1]))
-	return string(b[:1]) + string(c[:1]) + verifHexTail[:30] + string(c[1:]) + verifHexTail[30:] + string(b[1:])
+	return string(b[:1]) + "f" + verifHexTail[:30] + "0" + verifHexTail[30:] + string(b[1:])
 }
 
 // verifUUID: 8-4-4-4-12 with three symbolic hex digits.
@@ -286,7 +280,7 @@ func VerifBuiltPathsParse() {
 	kind := verif.Choice("kind", verifNumKinds)
 	p := verifParts0(kind)
 	if verifHasRepo(kind) {
-		p.repo = verifRepo(verif.Bound("repo_keywords", 4, 8))
+		p.repo = verifRepo(verif.Bound("repo_keywords", 4, 5))
 	}
 	verifCheckBuilt(p, true)
 }
